@@ -382,7 +382,7 @@ def run(run, tier, replay):
                 raise vlib.ToolError("model: concurrent program does not complete on io_uring: %s" % p)
         extra = []
         if tier != "quick":
-            extra = random_cases(1000, vlib.seed(), len(cases))
+            extra = random_cases(600, vlib.seed(), len(cases))
         allcases = cases + extra
         run.note("programs_from_model", len(cases))
         run.note("random_byte_programs", len(extra))
